@@ -77,6 +77,16 @@ var checks = map[string]checkCfg{
 		Rule:        "each case draws a squash mode (valid, mixed case, unrecognised), a credential flavor, uid/gid from boundary and random values, 0-16 auxiliary gids, machine name length, and an AUTH_SYS body that is whole, truncated at a byte offset or declares an over-limit gid count; optionally the credential is pre-parsed and shared with the caller; non-trivial = the reference mapping differs from identity, or the credential must be rejected; distinct = FNV-64 of the case JSON",
 		Assumptions: append([]string{"machine names longer than 255 bytes are not generated (RFC 1831 bounds them, absnfs does not)", "for an unrecognised squash mode only uid/gid are judged (the statement does not define the auxiliary list)"}, baseAssumptions...),
 		Phases:      []phase{rp("rapid", "^TestC10$", 4, 3000, 16, 60000)}},
+	"C11": {Level: "exploration", Technique: "rapid credentials x squash x sattr3 uid/gid combinations vs backend Chown recorder and inode owner",
+		Rule:        "each case draws a squash mode, an AUTH_SYS (or AUTH_NONE) credential and 1-8 requests among SETATTR (on file, directory, symlink), CREATE, MKDIR, SYMLINK with every uid/gid set-flag combination and values {0, caller, 4242}; non-trivial = a non-root effective caller asked for foreign ids, or an object was created; distinct = FNV-64 of the case JSON",
+		Assumptions: baseAssumptions,
+		Phases:      []phase{rp("rapid", "^TestC11$", 4, 2000, 16, 20000)}},
+	"C12": {Level: "exploration", CanBeExhaustive: false, Technique: "exhaustive enumeration of the ACCESS decision space vs a decision table + rapid boundary cases",
+		Rule:        "phase enum enumerates every (mode, object type, caller relation in {owner, group, aux-group only, other, owner-and-group, root}, request mask 0..63, read-only off/on) point - quick: the 512 rwx modes (786432 points), thorough: all 4096 twelve-bit modes (6291456 points); each point is one ACCESS request after a root SETATTR installed mode and owner; phase rapid adds masks above 0x3F, arbitrary owners and auxiliary lists; every point is a distinct decision and counts as non-trivial; points are partitioned over shards by mode, so distinct counts add up",
+		Assumptions: append([]string{"absnfs stores only the 0777 bits in the backend, so setuid/setgid/sticky modes are sent but cannot influence the decision", "EXECUTE follows the x bit on files and directories (the statement restricts only LOOKUP and DELETE to directories)"}, baseAssumptions...),
+		Phases: []phase{
+			{Name: "enum", Variant: "plain", Tests: "^TestC12$", QuickShards: 8, ThoroughShards: 16},
+			rp("rapid", "^TestC12Rapid$", 4, 3000, 16, 30000)}},
 	"C02": {Level: "exploration", Technique: "rapid histories vs POSIX tree model + cached-vs-uncached differential",
 		Rule:        "cases are rapid-generated sequential histories of LOOKUP/CREATE/MKDIR/SYMLINK/REMOVE/RMDIR/RENAME/READDIR(PLUS)/GETATTR/READLINK over names {a,b,c} to depth 3, addressed through every handle ever issued (stale ones included); each history runs under the all-off baseline and k cached configurations (quick 3, thorough 6 of 15); non-trivial = a read-type request on a name or directory affected by an earlier successful mutation, executed under a configuration with at least one cache on; distinct = FNV-64 of the case JSON",
 		Assumptions: append([]string{"documented latitude L1-L7 of DESIGN.md §5 C02 (REMOVE of empty dir, UNCHECKED/EXCLUSIVE on existing objects, error code identity not compared against the model, path-bound handles)"}, baseAssumptions...),
